@@ -363,6 +363,8 @@ func checkC19(w *World, r *Result) {
 	reassigned := false
 	cur := slice
 	deduped := false
+	mapCollections := map[string]bool{} // maps keyed by ID that hold the deduplicated declarations
+	mergedDedupe := false               // the dedupe merges the priority of later copies into the kept one
 	var dedupPos ast.Node
 	hasContentWrite := func(rs *ast.RangeStmt) bool {
 		found := false
@@ -450,7 +452,7 @@ func checkC19(w *World, r *Result) {
 					r.bad("ORD-5", name, full+" after the emitting loop", w.Pos(call.Pos()), "sorting after emission has no effect on the output")
 					continue
 				}
-				if deduped {
+				if deduped && !mergedDedupe {
 					r.bad("ORD-5", name, full+" after deduplication", w.Pos(call.Pos()), "duplicates are removed before this sorting pass: which copy of an ID survives (and hence its priority group and position) depends on the order in which the declarations were supplied")
 				}
 				fl := comparatorLit(info, fi, call.Args[1])
@@ -490,6 +492,63 @@ func checkC19(w *World, r *Result) {
 				if filtered {
 					deduped = true
 					dedupPos = s
+					cur = es(apps[0].Lhs[0])
+					continue
+				}
+			}
+			// dedupe into a map keyed by ID: `if _, seen := byID[d.ID]; seen { …; continue }; byID[d.ID] = d`
+			if elem := identOf(s.Value); elem != nil {
+				var store *ast.AssignStmt
+				ast.Inspect(s.Body, func(x ast.Node) bool {
+					as, ok := x.(*ast.AssignStmt)
+					if !ok || len(as.Lhs) != 1 || len(as.Rhs) != 1 {
+						return true
+					}
+					ix, ok := ast.Unparen(as.Lhs[0]).(*ast.IndexExpr)
+					if !ok || es(ix.Index) != elem.Name+".ID" || es(as.Rhs[0]) != elem.Name {
+						return true
+					}
+					if _, isMap := info.TypeOf(ix.X).Underlying().(*types.Map); isMap {
+						store = as
+					}
+					return true
+				})
+				if store != nil {
+					mapName := es(store.Lhs[0].(*ast.IndexExpr).X)
+					guarded := false
+					for _, c := range pathConds(fi.Decl, store) {
+						if c.expr == nil || c.truth {
+							continue
+						}
+						if m, key := mapMembershipExpr(info, fi.Decl, c.expr); m != nil && m.Name() == mapName && es(key) == elem.Name+".ID" {
+							guarded = true
+						}
+					}
+					// is the priority of a later copy merged into the kept one (stored back into the map)?
+					merged := false
+					ast.Inspect(s.Body, func(x ast.Node) bool {
+						as, ok := x.(*ast.AssignStmt)
+						if !ok || as == store || len(as.Lhs) != 1 {
+							return true
+						}
+						if ix, ok := ast.Unparen(as.Lhs[0]).(*ast.IndexExpr); ok && es(ix.X) == mapName {
+							merged = true
+						}
+						return true
+					})
+					if guarded {
+						deduped, dedupPos = true, s
+						mergedDedupe = merged // else the first copy wins as supplied: a later sorting pass sees only that copy
+						mapCollections[mapName] = true
+						cur = mapName
+						continue
+					}
+				}
+			}
+			// the values of that map collected into a slice (any order: a total sort must follow)
+			if mapCollections[cur] {
+				apps := appendStmts(info, s.Body, "")
+				if len(apps) == 1 && identOf(s.Value) != nil && es(apps[0].Rhs[0].(*ast.CallExpr).Args[1]) == identOf(s.Value).Name && len(pathConds(fi.Decl, apps[0])) <= 1 {
 					cur = es(apps[0].Lhs[0])
 					continue
 				}
